@@ -259,6 +259,29 @@ Fixpoint assignments (vs : list N) : list (list (N * term)) :=
   | v :: r => flat_map (fun h => map (fun u => (v, u) :: h) universe) (assignments r)
   end.
 
+(* the same, the variables of [pinned] taking the single value a *)
+Fixpoint assignments_p (vs : list N) (pinned : list N) : list (list (N * term)) :=
+  match vs with
+  | [] => [[]]
+  | v :: r => flat_map (fun h => map (fun u => (v, u) :: h) (if existsb (N.eqb v) pinned then [a_a] else universe))
+                       (assignments_p r pinned)
+  end.
+
+Fixpoint cvars (c : rcond) : list N :=
+  match c with
+  | REq a b | RDif a b => vars a ++ vars b
+  | RAnd c d | ROr c d => cvars c ++ cvars d
+  end.
+Definition core_vars (k : core) : list N :=
+  match k with
+  | KIf c | KDisj c | KPlain c => cvars c
+  | KTfilter x l | KTpartition x l | KMemberd x l | KTmember x l => vars x ++ flat_map vars l
+  end.
+(* the inputs among X,Y,Z that the case does not mention: every answer must leave them free, so one value stands for all *)
+Definition unused_inputs (pre : list (N * term)) (k : core) (post : list (N * term)) : list N :=
+  let used := map fst pre ++ map fst post ++ core_vars k in
+  filter (fun v => negb (existsb (N.eqb v) used)) [0; 1; 2]%N.
+
 Definition val_of (h : list (N * term)) : valuation :=
   fun x => match lookup x h with Some t => t | None => Var x end.
 
@@ -268,14 +291,24 @@ Fixpoint nodupN (l : list N) : list N :=
   | x :: r => if existsb (N.eqb x) r then nodupN r else x :: nodupN r
   end.
 
+Definition occurrences (v : N) (a : answer) : nat :=
+  List.length (filter (N.eqb v) (lvars (fst a) ++ flat_map (fun p => vars (fst p) ++ vars (snd p)) (snd a))).
+
+(* the variables of an answer that are the whole value of an unused input and occur nowhere else *)
+Definition pinned_of (a : answer) (unused : list N) : list N :=
+  flat_map (fun i => match nth_error (fst a) (N.to_nat i) with
+                     | Some (Var v) => if Nat.eqb (occurrences v a) 1 then [v] else []
+                     | _ => []
+                     end) unused.
+
 (* the ground instances (over the universe, inputs X,Y,Z first) of one shown answer *)
-Definition instances (a : answer) : list (list term) :=
+Definition instances (unused : list N) (a : answer) : list (list term) :=
   flat_map (fun h => let g := val_of h in
                      let tuple := map (inst g) (fst a) in
                      if forallb in_universe (firstn 3 tuple)
                         && forallb (fun p => negb (term_eqb (inst g (fst p)) (inst g (snd p)))) (snd a)
                      then [tuple] else [])
-           (assignments (nodupN (lvars (fst a)))).
+           (assignments_p (nodupN (lvars (fst a))) (pinned_of a unused)).
 
 Definition holds_bindings (g : valuation) (bs : list (N * term)) : bool :=
   forallb (fun p => term_eqb (g (fst p)) (snd p)) bs.
@@ -284,7 +317,7 @@ Definition spec_instances (pre : list (N * term)) (k : core) (post : list (N * t
   flat_map (fun h => let g := val_of h in
                      if holds_bindings g pre && holds_bindings g post
                      then map (fun o => map g [0; 1; 2]%N ++ o) (expected k g) else [])
-           (assignments [0; 1; 2]%N).
+           (assignments_p [0; 1; 2]%N (unused_inputs pre k post)).
 
 (* the same comparison organised by input assignment (each ground instance of the inputs X,Y,Z is numbered) *)
 Fixpoint uidx (t : term) (l : list term) (i : N) : N :=
@@ -302,7 +335,7 @@ Definition spec_indexed (pre : list (N * term)) (k : core) (post : list (N * ter
   map (fun h => let g := val_of h in
                 (tuple_index (map g [0; 1; 2]%N),
                  if holds_bindings g pre && holds_bindings g post then expected k g else []))
-      (assignments [0; 1; 2]%N).
+      (assignments_p [0; 1; 2]%N (unused_inputs pre k post)).
 
 (* exact: every expected ground instance is covered by exactly one answer and nothing else is covered;
    otherwise: covered at least once and nothing else is covered *)
@@ -323,7 +356,7 @@ Definition chk_model (pre : list (N * term)) (k : core) (post : list (N * term))
   | _ => same_answers (model_answers pre k post) impl
   end.
 Definition chk_ground (pre : list (N * term)) (k : core) (post : list (N * term)) (impl : list answer) : bool :=
-  ground_ok (is_exact k) (spec_indexed pre k post) (map indexed (flat_map instances impl)).
+  ground_ok (is_exact k) (spec_indexed pre k post) (map indexed (flat_map (instances (unused_inputs pre k post)) impl)).
 Definition check_case (pre : list (N * term)) (k : core) (post : list (N * term)) (impl : list answer) : bool :=
   chk_model pre k post impl && chk_ground pre k post impl.
 
